@@ -472,6 +472,76 @@ fn run_builder(which: u8, out: &mut Vec<Violation>) {
             }
             let s = sqe_of!(fd.sync_data());
             check("sync_data", s.opcode() == OP_FSYNC && s.op_flags() == 1, &s);
+            // splice: fd = output, splice_fd_in = input, off = output offset, addr = input offset.
+            {
+                use a10::io::SpliceFlag;
+                let other = unsafe { std::os::fd::BorrowedFd::borrow_raw(1) };
+                for (fl, bits) in [(SpliceFlag::MOVE, libc::SPLICE_F_MOVE), (SpliceFlag::MORE, libc::SPLICE_F_MORE), (SpliceFlag::MOVE | SpliceFlag::MORE, libc::SPLICE_F_MOVE | libc::SPLICE_F_MORE)] {
+                    let s = sqe_of!(fd.splice_to(other, 77).from(5).at(9).flags(fl));
+                    check("Splice(to)::from/at/flags", s.opcode() == OP_SPLICE && s.fd() == 1 && s.file_index() as i32 == w.fd_raw && s.addr() == 5 && s.off() == 9 && s.len() == 77 && s.op_flags() == bits, &s);
+                    let s = sqe_of!(fd.splice_from(other, 33).from(6).at(2).flags(fl));
+                    check("Splice(from)::from/at/flags", s.opcode() == OP_SPLICE && s.fd() == w.fd_raw && s.file_index() == 1 && s.addr() == 6 && s.off() == 2 && s.len() == 33 && s.op_flags() == bits, &s);
+                }
+                let s = sqe_of!(fd.splice_to(other, 7));
+                check("Splice defaults", s.opcode() == OP_SPLICE && s.addr() == u64::MAX && s.off() == u64::MAX && s.op_flags() == 0, &s);
+            }
+            {
+                use a10::net::{RecvFlag, SendFlag};
+                for (f, bits) in [(RecvFlag::PEEK, libc::MSG_PEEK), (RecvFlag::WAIT_ALL, libc::MSG_WAITALL)] {
+                    let s = sqe_of!(fd.recv_from_vectored::<_, std::net::SocketAddr, 2>([Vec::with_capacity(2), Vec::with_capacity(2)]).flags(f));
+                    check("RecvFromVectored::flags", s.opcode() == OP_RECVMSG && s.op_flags() == bits as u32, &s);
+                    let s = {
+                        let mut it = Box::pin(fd.multishot_recv(w.pool.clone()).flags(f));
+                        let tail = simk::with(|k| k.rings[0].sq_tail());
+                        let wk = HWaker::new(9);
+                        let mut cx = Context::from_waker(&wk.waker);
+                        let p = talloc::track(|| it.as_mut().poll_next(&mut cx));
+                        assert!(p.is_pending());
+                        let sqe = simk::with(|k| unsafe { *k.rings[0].sqe_slot(tail) });
+                        talloc::track(|| {
+                            let _ = w.ring.poll(Some(Duration::ZERO));
+                        });
+                        talloc::track(|| drop(it));
+                        finish_all(&mut w);
+                        sqe
+                    };
+                    check("MultishotRecv::flags", s.opcode() == OP_RECV && s.op_flags() == bits as u32 && s.ioprio() & RECV_MULTISHOT != 0, &s);
+                }
+                let to: std::net::SocketAddr = "10.1.2.3:99".parse().unwrap();
+                for (f, bits) in [(SendFlag::MORE, libc::MSG_MORE), (SendFlag::DONT_ROUTE, libc::MSG_DONTROUTE)] {
+                    let s = sqe_of!(fd.send_to(vec![1u8; 3], to).flags(f));
+                    check("SendTo::flags", s.opcode() == OP_SEND && s.op_flags() == bits as u32, &s);
+                    let s = sqe_of!(fd.send_to(vec![1u8; 3], to).flags(f).zc());
+                    check("SendTo::flags+zc", s.opcode() == OP_SEND_ZC && s.op_flags() == bits as u32, &s);
+                    let s = sqe_of!(fd.send_to_vectored([vec![1u8; 2], vec![2u8; 1]], to).flags(f));
+                    check("SendMsg(to)::flags", s.opcode() == OP_SENDMSG && s.op_flags() == bits as u32, &s);
+                    let s = sqe_of!(fd.send_to_vectored([vec![1u8; 2], vec![2u8; 1]], to).flags(f).zc());
+                    check("SendMsg(to)::flags+zc", s.opcode() == OP_SENDMSG_ZC && s.op_flags() == bits as u32, &s);
+                }
+            }
+            {
+                let s = sqe_of!(a10::pipe::pipe(w.sq.clone()).flags(a10::pipe::PipeFlag::DIRECT));
+                check("Pipe::flags", s.opcode() == OP_PIPE && s.op_flags() == (libc::O_DIRECT | libc::O_CLOEXEC) as u32 && s.file_index() == 0, &s);
+                let s = sqe_of!(a10::pipe::pipe(w.sq.clone()).flags(a10::pipe::PipeFlag::DIRECT).kind(FdKind::Direct));
+                check("Pipe::flags+kind", s.opcode() == OP_PIPE && s.op_flags() == libc::O_DIRECT as u32 && s.file_index() == FILE_INDEX_ALLOC, &s);
+            }
+            {
+                use a10::fs::MetadataInterest as M;
+                for (m, bits) in [(M::SIZE, libc::STATX_SIZE), (M::TYPE | M::MODE, libc::STATX_TYPE | libc::STATX_MODE), (M::MODIFIED_TIME | M::ACCESSED_TIME | M::CREATED_TIME | M::BLOCKS, libc::STATX_MTIME | libc::STATX_ATIME | libc::STATX_BTIME | libc::STATX_BLOCKS)] {
+                    let s = sqe_of!(fd.metadata().only(m));
+                    check("Stat::only", s.opcode() == OP_STATX && s.len() == bits, &s);
+                }
+            }
+            {
+                use a10::process::{WaitOn, WaitOption as O, wait};
+                // waitid: id in fd, id type in len, options in file_index.
+                for (on, idtype, id) in [(WaitOn::Process(4321), libc::P_PID, 4321), (WaitOn::Group(77), libc::P_PGID, 77), (WaitOn::All, libc::P_ALL, 0)] {
+                    for (o, bits) in [(O::EXITED, libc::WEXITED), (O::STOPPED, libc::WSTOPPED), (O::CONTINUED, libc::WCONTINUED), (O::NO_WAIT, libc::WNOWAIT)] {
+                        let s = sqe_of!(wait(w.sq.clone(), on).flags(o));
+                        check("WaitId::flags/WaitOn", s.opcode() == OP_WAITID && s.len() == idtype as u32 && (idtype == libc::P_ALL || s.fd() == id) && s.file_index() == bits as u32, &s);
+                    }
+                }
+            }
             let s = sqe_of!(fd.sync_all());
             check("sync_all", s.opcode() == OP_FSYNC && s.op_flags() == 0, &s);
             for (how, val) in [(std::net::Shutdown::Read, libc::SHUT_RD), (std::net::Shutdown::Write, libc::SHUT_WR), (std::net::Shutdown::Both, libc::SHUT_RDWR)] {
